@@ -165,7 +165,14 @@ def pipeline(tier, seed):
         hs = histories_for(tier, seed)
         targets = TARGETS[tier]
         log("foreign: %d histories on this host and on %s" % (len(hs), ", ".join(targets)))
-        shard, nev, hosts, run_of = merged_trace(hs, out_dir, bin_dir, targets)
+        try:
+            shard, nev, hosts, run_of = merged_trace(hs, out_dir, bin_dir, targets)
+        except ToolError as ex:
+            # the interpreter (or its sysroot for a foreign target) is not usable here: this stage adds
+            # coverage to C18, its absence must not break the check of what the other stages cover
+            log("foreign: stage unavailable, skipped: %s" % str(ex)[:300])
+            return {"tier": tier, "seed": seed, "unavailable": str(ex)[:2000], "bad": [], "tags": {}, "histories": 0,
+                    "events": 0, "consumed": 0, "hosts": {}, "runs": {}, "sample": None}
         log("foreign: TLC trace validation of %d events" % nev)
         bad, consumed = builder_pipe.validate_traces([shard], out_dir)
         byhid = {h["hid"]: h for h in hs}
